@@ -122,7 +122,13 @@ func init() {
 		fk := funcKey(f)
 		n := 0
 		for _, h := range f.Blocks {
-			if h.Comment != "rangeiter.loop" && h.Comment != "rangeindex.loop" {
+			isHdr := false
+			for _, pr := range h.Preds {
+				if h.Dominates(pr) {
+					isHdr = true
+				}
+			}
+			if !isHdr {
 				continue
 			}
 			n++
